@@ -260,9 +260,11 @@ impl Check for HdlcCheck {
                 class = Class::MustNot;
             }
             let _ = (adversarial, first_frame_single_flag);
-            // An empty payload cannot be told apart from idle fill between
-            // adjacent flags: never a MUST.
-            if len == 0 && class == Class::Must {
+            // Without a checksum an empty payload cannot be told apart from
+            // idle fill between adjacent flags: never a MUST there. With the
+            // checksum on it is flag, sixteen FCS bits, flag: a frame like any
+            // other.
+            if len == 0 && class == Class::Must && !checksum {
                 class = Class::May;
             }
             tx.push(TxFrame { payload, flips, class, open_pos, close_pos });
@@ -334,7 +336,7 @@ impl Check for HdlcCheck {
         // delivered, in order, without skipping a MUST frame; (b) a candidate
         // of the reference deframer whose FCS verifies; (c) on a noisy channel
         // only, nothing - but then it must not equal any transmitted payload.
-        let outs: Vec<&Vec<u8>> = got.iter().filter(|o| !(o.is_empty() && min_size == 0)).collect();
+        let outs: Vec<&Vec<u8>> = got.iter().filter(|o| !(o.is_empty() && min_size == 0 && !checksum)).collect();
         ctx.add("empty_frame_with_min_size_0", (got.len() - outs.len()) as u64);
         for (oi, o) in outs.iter().enumerate() {
             let l = o.len();
